@@ -2371,10 +2371,10 @@ package sdf
 //@ end
 
 //@ func UnionSDF3.Evaluate
-//@   property C02 C01 C03
+//@   property C02 C01
 //@   id minimum-over-all-operands
-//@   modular
 //@   pure
+//@   local
 //@   requires len(s.sdf) >= 1
 //@   requires forall k int :: 0 <= k && k < len(s.sdf) ==> !isnil(s.sdf[k])
 //@   requires forall a float64, b float64 :: s.min(a, b) == min(a, b)
@@ -2388,6 +2388,7 @@ package sdf
 //@ func Union3D
 //@   property C01
 //@   id ENC
+//@   summarise UnionSDF3.Evaluate minimum-over-all-operands
 //@   forall p v3.Vec
 //@   requires forall k int :: 0 <= k && k < len(sdf) && !isnil(sdf[k]) ==> ord3(sdf[k].BoundingBox())
 //@   requires forall k int, q v3.Vec :: 0 <= k && k < len(sdf) && !isnil(sdf[k]) ==> enc3(sdf[k], q)
